@@ -500,6 +500,8 @@ def t_write_db(ctx):
             return o
         lists.append(SeqList(ctx, n, item) if present[ci] else [])
     ex, many = [], []
+    fs = []
+    existed = ctx.free_branch()      # a database file of that name may be left over from an earlier save
     db = Obj('cursor')
     db.methods['execute'] = lambda c, s, stmt, *a: (ex.append((stmt, a)), Obj('result', fetchall=None))[1]
     db.methods['executemany'] = lambda c, s, stmt, data: many.append((stmt, data))
@@ -511,8 +513,9 @@ def t_write_db(ctx):
     conn.methods['commit'] = lambda c, s: ex.append(('COMMIT', ()))
     conn.methods['close'] = lambda c, s: None
     g = {'classify_catalog': Model(lambda c, cat: tuple(lists), 'classify_catalog'), 'log': Namespace('log'),
-         'os': Namespace('os', path=Namespace('path', exists=Model(lambda c, f: False)), remove=Model(lambda c, f: None)),
-         'sqlite3': Namespace('sqlite3', connect=Model(lambda c, f: conn)),
+         'os': Namespace('os', path=Namespace('path', exists=Model(lambda c, f: (fs.append(('exists', f)), existed)[1])),
+                         remove=Model(lambda c, f: fs.append(('remove', f)))),
+         'sqlite3': Namespace('sqlite3', connect=Model(lambda c, f: (fs.append(('connect', f)), conn)[1])),
          'np': lib.std_np(int64=Namespace('int64'), int32=Namespace('int32'), float64=Namespace('float64'), float32=Namespace('float32'))}
     ctx.interp.inline.update(['sqlTypes', 'nulls'])
     from pyvc.engine import Closure
@@ -533,6 +536,15 @@ def t_write_db(ctx):
     if out.kind != 'return':
         ctx.oblige("safe", "db.no_exception", False)
         return
+    # the database holds the same rows as the catalogue: nothing of an earlier file of that name may survive
+    ops = [o for o in fs if o[0] in ('remove', 'connect')]
+    stmts_ = [str(e[0]).upper() for e in ex]
+    first_create = next((k for k, t_ in enumerate(stmts_) if t_.startswith('CREATE')), len(stmts_))
+    dropped_all = all(any(t_.startswith('DROP TABLE IF EXISTS ' + tb) for t_ in stmts_[:first_create])
+                      for tb in ('COMPONENTS', 'ISLANDS', 'SIMPLES', 'META'))
+    ctx.oblige("post", "db.a_left_over_file_is_removed_or_emptied_before_the_tables_are_written",
+               ops == ([('remove', 'cat.db')] if existed else []) + [('connect', 'cat.db')] or
+               (ops == [('connect', 'cat.db')] and dropped_all))
     ctx.oblige("post", "db.one_insert_per_present_class_and_a_commit", len(many) == sum(present) and ('COMMIT', ()) in ex)
     it = iter(many)
     tabs = ['components', 'islands', 'simples']
